@@ -322,6 +322,37 @@ def run(ctx):
             else:
                 ctx.check(from_type, "R17.3", x.loc(t["ln"]), f"{x.id}|type-safe-list", f"{x.id}: must pass error_type.safe_args()", instance=f"{x.name}: safe list = error_type.safe_args()")
         ctx.floor("R17.3", "callers of the service-error builder", len(callers), 2)
+        # every public constructor that has the error *type* at hand (it encodes it) reaches the builder with that type's
+        # safe_args() — also when it is routed through another constructor (a detour via the propagated_* constructors drops
+        # the list and files every parameter as unsafe)
+        ntyped = 0
+        for x in ce.bodies:
+            if x.kind not in ("fn", "assoc_fn") or x.d.get("vis") != "pub" or not x.id.startswith("conjure_error::error::"):
+                continue
+            if not any(t["call"]["name"] == "encode" and t["call"].get("local") for _, t in x.calls()):
+                continue
+            ntyped += 1
+            ex = _inline.expand(ce, x, depth=2, pred=lambda cb: cb.id.startswith("conjure_error::error::") and cb.id != b.id)
+            bcalls = [t for _, t in ex.calls() if t["call"].get("id") == b.id]
+            good = len(bcalls) == 1 and safe_idx is not None and any(
+                s_[0] == "call" and ex.blocks[s_[1]]["t"]["call"]["name"] == "safe_args" and ex.blocks[s_[1]]["t"]["call"].get("trait") == ERRTYPE
+                for s_ in Tracer(ex).sources(bcalls[0]["args"][safe_idx]))
+            ctx.check(good, "R17.3", x.loc(), f"{x.id}|typed-constructor-safe-list", f"{x.id}: constructs a service error from an error type but the type's safe_args() does not reach the partitioning step ({len(bcalls)} builder call(s) reached): its safe parameters would be reported as unsafe",
+                      instance=f"{x.name}: error_type.safe_args() reaches the partition")
+        ctx.floor("R17.3", "public constructors taking an error type", ntyped, 1)
+    # ---------------- R17.3b the instance-id wrapper overrides: its instance_id() is Some(its own id) unconditionally
+    wid = [x for x in ce.bodies if x.trait == ERRTYPE and x.name == "instance_id" and (ty_adt(x.self_ty) or "").endswith("WithInstanceId")]
+    if wid:
+        from .. import minterp as _mi
+        I_ = _mi.Interp(F, ce, inline=lambda d_, rid: False)
+        try:
+            r_ = I_.run(wid[0], [("sym", "self")])
+            shown = _mi.show(I_, r_)
+            good = _mi.is_adt(r_) and r_[1] == "core::option::Option" and r_[2] == 1 and isinstance(r_[3][0], tuple) and r_[3][0][0] == "proj" and r_[3][0][1] == ("sym", "self") and "instance_id" in str(r_[3][0][2])
+        except _mi.Unsupported as e_:
+            good, shown = False, f"not a constant expression of self ({e_})"
+        ctx.check(good, "R17.3", wid[0].loc(), "WithInstanceId|instance_id|overrides", f"WithInstanceId::instance_id returns {shown[:80]}; it must be Some(self.instance_id) whatever the wrapped error reports (the supplied instance id is the one that is encoded)",
+                  instance="WithInstanceId::instance_id = Some(self.instance_id)")
     # ---------------- R17.4 encode wiring
     enc = [b for b in ce.bodies if b.name == "encode" and b.kind == "fn" and b.d.get("vis") == "pub"]
     seed_adt = None
@@ -511,6 +542,39 @@ def run(ctx):
         ctx.check(ok and not foreign, "R17.7", gb.loc(), f"{fname}|safe-arg-names|wire",
                   f"{fname}: the names emitted into `fn safe_args` are computed through {foreign or 'an unrecognised expression'}; they must be the IR field names (FieldDefinition::field_name().0) because Error::service compares them with the serialized (wire) keys — a converted identifier (service_name, type_) never matches and the parameter is filed as unsafe",
                   instance=f"{fname}: safe_args = IR field names, sorted")
+    # ---------------- R17.8 generator: the string returned by the generated name() is `<namespace>:<declared error name>`
+    # verbatim — not the Rust identifier derived from it (UpperCamelCase conversion / keyword escaping change HTTPGatewayError,
+    # My_Error, Self)
+    import re as _re
+    nn = 0
+    for fn in (tm["functions"] if tm is not None else []):
+        if not fn["file"].endswith("conjure-codegen/src/errors.rs"):
+            continue
+        for q in fn["quotes"]:
+            m_ = _re.search(r"fn name \(& self\) -> & str \{ # (\w+) \}", q["text"])
+            if not m_:
+                continue
+            nn += 1
+            var = m_.group(1)
+            seen_, work_, text_ = set(), [var], ""
+            while work_:
+                v_ = work_.pop()
+                if v_ in seen_ or v_ not in fn["lets"]:
+                    continue
+                seen_.add(v_)
+                rhs = fn["lets"][v_]
+                text_ += " " + rhs
+                work_ += [w for w in _re.findall(r"[A-Za-z_]\w*", rhs) if w in fn["lets"]]
+            flat_ = text_.replace(" ", "")
+            if not text_:
+                ctx.note(f"R17.8 {fn['name']}: the value interpolated into name() (`{var}`) is not a local let-binding; instances decided by R17.6")
+                continue
+            conv = [x for x in ("type_name(", "field_name(", "_case(", "to_lowercase(", "to_uppercase(", "to_ascii_") if x in flat_]
+            ctx.check(not conv and "namespace()" in flat_ and "error_name()" in flat_, "R17.8", f"{fn['file']}:{q['line']}", f"{fn['name']}|error-name-verbatim",
+                      f"{fn['name']}: name() returns `{var}` = `{fn['lets'][var][:80]}`, which is computed through {conv or 'something other than namespace() and error_name()'}: the wire name of an error must be its declared Namespace:Name, not the Rust identifier",
+                      instance=f"{fn['name']}: name() = format!(\"{{}}:{{}}\", namespace(), error_name().name())")
+    ctx.floor("R17.8", "templates emitting ErrorType::name", nn, 1)
+
 
 def c_methods(crate, impl):
     return crate.methods_of_impl(impl)
